@@ -48,6 +48,16 @@ func randMacros(r *rand.Rand) string {
 	return s
 }
 
+// the string and integer variables, and values a configuration file may well give them: characters that
+// are special where the value ends up (a regular expression, a format, an escape sequence), the empty
+// string, numbers at and beyond the ends of their range
+var strVars = []string{"comment-begin", "multiline-column-custom", "bell-style", "emacs-mode-string", "vi-cmd-mode-string",
+	"vi-ins-mode-string", "isearch-terminators", "active-region-start-color", "active-region-end-color",
+	"completion-description-style", "completion-selection-style", "completion-list-separator"}
+var strVals = []string{"(", "[", ")", "*", "--[", "\\", "\"\"", "%s%d", "+?", "{", "a|", "\\e[1m", "é中", "x"}
+var intVars = []string{"completion-display-width", "completion-prefix-display-length", "completion-query-items", "history-size", "keyseq-timeout"}
+var intVals = []string{"0", "-1", "1", "2", "-5", "999999999", "99999999999999999999", "abc"}
+
 func randInputrc(r *rand.Rand) string {
 	s := ""
 	for k := r.Intn(4); k > 0; k-- {
@@ -56,6 +66,14 @@ func randInputrc(r *rand.Rand) string {
 			v = "off"
 		}
 		s += fmt.Sprintf("set %s %s\n", boolVars[r.Intn(len(boolVars))], v)
+	}
+	// one configuration in three also sets a string or an integer variable
+	if r.Intn(3) == 0 {
+		if r.Intn(3) > 0 {
+			s += fmt.Sprintf("set %s %s\n", strVars[r.Intn(len(strVars))], strVals[r.Intn(len(strVals))])
+		} else {
+			s += fmt.Sprintf("set %s %s\n", intVars[r.Intn(len(intVars))], intVals[r.Intn(len(intVals))])
+		}
 	}
 	return s
 }
